@@ -116,18 +116,24 @@ def validity_group_case(seed, shard, i, make_case):
             prog["comment"] = "run-mode: no-run "  # a member that is switched off is still a valid member
         members.append(prog)
     pol = r.choice([["collect", "print"], ["collect", "fail"], ["collect", "stop"], ["collect", "stop", "fail"], ["fail", "print"], ["stop", "print"], ["collect", "stop", "fail", "print"]])
+    cps_pol = None
+    if r.random() < 0.12:
+        # a member that cannot even be built (unknown function): it fails outside match-component evaluation, at the
+        # CsvPaths level; under a CsvPaths-level policy without 'raise' the run goes on and the verdicts must still agree
+        members.insert(r.randint(0, len(members)), {"scan": "*", "comps": [["fn", r.choice(["nosuchfunction", "yess"]), [], []]], "mode": "AND"})
+        cps_pol = r.choice([["collect", "fail"], ["collect", "print"], ["collect", "fail", "print"]])
     method = METHODS[i % len(METHODS)]
     if r.random() < 0.04:
         rows = []  # an empty data file: nothing can fail it
     elif not any(len(x) for x in rows):
         rows = rows + [["r9", "F", "n", "5"]]
-    return {"group": members, "rows": rows, "policy": pol, "method": method}
+    return {"group": members, "rows": rows, "policy": pol, "method": method, "csvpaths_policy": cps_pol}
 
 
 def check_validity_group(case, agg):
     members, rows, pol, method = case["group"], case["rows"], case["policy"], case["method"]
     reset_sandbox()
-    env.write_config(".", csvpath_policy=pol)
+    env.write_config(".", csvpath_policy=pol, csvpaths_policy=case.get("csvpaths_policy"))
     try:
         cs = env.new_csvpaths()
         add_file(cs, "data", rows)
@@ -142,8 +148,10 @@ def check_validity_group(case, agg):
         if len(results) != len(members):
             witness["n_results"] = len(results)
             return "member-count", witness
-        # members' own verdicts are what a standalone run gives (no cross-path signals in these programs)
-        for j, p in enumerate(members):
+        # members' own verdicts are what a standalone run gives (no cross-path signals in these programs). Not asked of
+        # groups with an unbuildable member: in breadth-first runs its per-line failure makes the members after it skip
+        # every line (observation O8 in DESIGN.md) - the conjunction obligations below are still checked for them.
+        for j, p in enumerate(members if case.get("csvpaths_policy") is None else []):
             sv = standalone_verdict(p, rows, pol)
             if sv is not None and sv != verdicts[j]:
                 witness["standalone"] = (j, sv)
